@@ -356,6 +356,11 @@ class Engine:
         s = self.P.solver
         x = None if extra is True else extra
         if x is not None and not z3.is_expr(x): x = z3.BoolVal(bool(x))
+        if full and x is not None:
+            r0, _, why0 = s.check(x)       # cheap refutation first (sliced, bit-vector relaxation)
+            if r0 == z3.unsat:
+                self.stats['queries'] += 1; self.stats['solver_s'] += time.time() - t
+                return False, None
         if full:
             # counterexample extraction: prefer models with short strings so that they can be realised natively
             strs = [t for (k, t) in self.P.nondets.values() if k == 'str' and not isinstance(t, str)]
